@@ -112,4 +112,28 @@ theorem serial_ran (plan : List Task) (hwf : WF plan) :
     simp [St.setExc, hd, St.announce, hr, this]
 
 
+
+/-! ### the failure path of a submission task (D20) -/
+
+theorem waitLoop_current (stored : List (Option Exc)) : waitLoop Gen.waitLoopHandlers stored = none := by
+  induction stored with
+  | nil => rfl
+  | cons x rest ih =>
+    cases x with
+    | none => simpa [waitLoop] using ih
+    | some e => cases e <;> simpa [waitLoop, findHandler, catches, Gen.waitLoopHandlers] using ih
+
+/-- **A failed submission is always announced**: whatever exceptions — ordinary or not — the futures of the
+tasks submitted so far carry, the failure path of `SubmissionTask._main` (generated from the source: record,
+wait, announce) reaches `announce_done` and raises nothing.  (Before commit fc016c7 the waiting loop let a
+`base` exception through and the transfer was never announced: D20.) -/
+theorem failed_submission_is_announced (stored : List (Option Exc)) :
+    failurePath Gen.waitLoopHandlers Gen.submissionFailurePath stored = (true, none) := by
+  simp [Gen.submissionFailurePath, failurePath, waitLoop_current]
+
+/-- the loop before the repair (`except Exception`): a `base` exception on an awaited future ends the path
+without an announcement -/
+example : failurePath [("Exception", false, false, false)] Gen.submissionFailurePath [none, some .base] = (false, some .base) := by
+  decide
+
 end S3V.Serial
